@@ -29,6 +29,14 @@ POOL = {
     "Si++++": ("Si", False, 0, 4), "N2D+": ("N2D", False, 0, 1), "O*": ("O*", False, 0, 0), "C*": ("C*", False, 0, 0),
 }
 ELECTRON = {"e-": ("e", False, 0, -1), "E": ("E", False, 0, -1), "E-": ("E", False, 0, -1)}
+# dust grains of population 0 under both spellings (GRAIN0 / GRAIN): one species each, whichever spelling a file uses
+GRAINS = {"GRAIN0": ("GRAIN0", False, 0, 0), "GRAIN": ("GRAIN", False, 0, 0), "GRAIN0-": ("GRAIN0", False, 0, -1), "GRAIN-": ("GRAIN", False, 0, -1)}
+# (not part of the pool the random networks draw from: a grain next to ice of another population is refused by the network itself)
+
+
+def key_of(name: str, base: str) -> str:
+    """identity of the species apart from its spelling"""
+    return "GRAIN" if name in GRAINS else base
 # the upper-case naming convention (UCLCHEM style): element list in capitals; the identifier uses the standard symbols.
 #        name: (base in standard symbols, surface, sgroup, charge, the name after element replacement)
 UPPER_ELEMENTS = ["E", "H", "HE", "C", "N", "O", "NA", "MG", "SI", "S", "CL", "FE", "NI"]
@@ -51,7 +59,7 @@ UPPER_BY_REPLACED = {v[4]: v for v in POOL_UPPER.values()}
 def attrs(name, upper=False):
     if upper:
         return (POOL_UPPER.get(name) or UPPER_BY_REPLACED[name])[:4]
-    return POOL.get(name) or ELECTRON[name]
+    return POOL.get(name) or GRAINS.get(name) or ELECTRON[name]
 
 
 def gen_upper_case(rng: random.Random):
@@ -146,8 +154,8 @@ def make_trace(ctx, tid, case, net, k):
     for c in reps:
         nm = kept[id(c)].name if kept[id(c)] is not None else c.name
         base, surf, grp, q = attrs(nm, case.get("upper", False))
-        species.append({"name": nm, "rank": allnames.index(nm) + 1, "degree": len(conn[id(c)]), "base": chars(base), "surface": surf,
-                        "sgroup": grp, "charge": q})
+        species.append({"name": nm, "rank": allnames.index(nm) + 1, "degree": len(conn[id(c)]), "base": chars(base), "key": chars(key_of(nm, base)),
+                        "surface": surf, "sgroup": grp, "charge": q})
     rank_of = {s["name"]: s["rank"] for s in species}
     ev = [{"act": "Sort", "ranks": [rank_of.get(s.name, -1) for s in net.species]}]
     out = ctx.scratch / "r" / str(k)
@@ -184,7 +192,18 @@ def make_trace(ctx, tid, case, net, k):
                "has_elems": True, "elem_ids": [chars(a) for a, _ in el2], "elem_slots": [n for _, n in el2], "nelem": pyc["NELEM"]})
     ev.append({"act": "EmitView", "kind": "pylists", "ids": [chars(a) for a in pyc["ALL_ALIAS"]], "slots": list(range(len(pyc["ALL_ALIAS"]))),
                "n": len(pyc["ALL_SPECIES"]), "has_elems": False})
-    conf = tomlkit.loads(NetworkConfiguration("p", net).content)["summary"]
+    # ANOTHER network with other element symbols is created before the summary of this one is written (a script that prepares two
+    # projects, exporting the first after building the second): the summary still names this network's species as its other artefacts do
+    from naunet.network import Network as _Net
+    known = (list(Species.known_elements()), list(Species.known_pseudoelements()))
+    try:
+        with quiet():
+            _Net(**({"elements": list(Species.default_elements), "pseudo_elements": list(Species.default_pseudoelements)} if case.get("upper") else
+                   {"elements": list(UPPER_ELEMENTS), "pseudo_elements": list(UPPER_PSEUDO)}))
+        conf = tomlkit.loads(NetworkConfiguration("p", net).content)["summary"]
+    finally:
+        Species.set_known_elements(known[0])
+        Species.set_known_pseudoelements(known[1])
     ev.append({"act": "EmitView", "kind": "summary", "ids": [chars(a) for a in conf["list_of_species_alias"]],
                "slots": list(range(len(conf["list_of_species_alias"]))), "n": int(conf["num_of_species"]), "has_elems": False})
     pout = ctx.scratch / "p" / str(k)
@@ -299,6 +318,13 @@ def main(ctx: Ctx) -> int:
             traces.append(make_trace(ctx, len(traces) + 1, case, net, k))
         except Exception as e:   # noqa
             ctx.violation(f"C09|Render|{type(e).__name__}", f"{type(e).__name__}: {e} for {case}", {"case": case})
+    # one grain population written under both spellings in one network (files of different origin): still one neutral and one charged grain
+    for bcase in ({"reactions": [(["GRAIN0", "e-"], ["GRAIN0-"]), (["C+", "GRAIN-"], ["C", "GRAIN"]), (["H", "H"], ["H2"])], "required": [], "incremental": False},
+                  {"reactions": [(["C+", "GRAIN-"], ["C", "GRAIN"]), (["H", "H"], ["H2"])], "required": ["GRAIN0", "GRAIN0-"], "incremental": True}):
+        try:
+            traces.append(make_trace(ctx, len(traces) + 1, bcase, build(bcase), n + 1 + len(traces)))
+        except Exception as e:  # noqa
+            ctx.violation(f"C09|Render|{type(e).__name__}|grain spellings", f"{type(e).__name__}: {e}", {"case": bcase})
     # two grain populations: the element table (recorded finding when it fails)
     gcase = {"reactions": [(["GRAIN1", "e-"], ["GRAIN1-"]), (["GRAIN2", "e-"], ["GRAIN2-"]), (["H", "H"], ["H2"])], "required": [], "incremental": False}
     POOL.update({"GRAIN1": ("GRAIN1", False, 0, 0), "GRAIN1-": ("GRAIN1", False, 0, -1), "GRAIN2": ("GRAIN2", False, 0, 0), "GRAIN2-": ("GRAIN2", False, 0, -1)})
